@@ -181,8 +181,9 @@ func readCtx(h app.ContextScope) c12ctxres {
 		r.DoneRecv = true
 	default:
 	}
-	r.ErrNil = h.Err() == nil
-	r.ErrCount = c12ErrCount(h.Err())
+	e := h.Err() // ONE reading: a watcher may hand its Canceled down between two
+	r.ErrNil = e == nil
+	r.ErrCount = c12ErrCount(e)
 	return r
 }
 
